@@ -110,7 +110,7 @@ def fams_for(dims):
 
 def gen(rng, tier):
     out = []
-    reps = 1 if tier == "quick" else 12
+    reps = 3 if tier == "quick" else 40
     for dims in shapes(4):
         for fam in fams_for(dims):
             for _ in range(reps):
